@@ -200,6 +200,10 @@ func runC06(r *Run) {
 		}
 	}
 	afterPrefix := prev
+	if prev < a.Lo {
+		r.Fail("poisoned-state", algoKey(a, "nan"), "the prefix history left the estimate at %d (below the floor %d: NaN/overflow) [%s]", prev, a.Lo, cfg)
+		return
+	}
 	// sustained drops with constant rtt
 	base := int64(0)
 	if a.NoLoad != nil {
